@@ -25,6 +25,7 @@ def run(rep):
     rep.assume("ghost widths are >= 1 (a[g:-g] is empty for g = 0)")
     R.chunk_placement(rep)
     R.chunk_coverage(rep)
+    R.iteration_coverage(rep)
     R.geometry_per_dataset(rep)
     R.ghost_and_axes(rep)
     R.restart_selection(rep)
